@@ -139,6 +139,15 @@ theorem machine_never_rescans (steps : Array (Step J)) (d : J) (hd : d.WFK) (hc 
     rw [h1]
     exact (topKeys_ttr_sublist _).nodup hnd
 
+/-- the same for a search started from a Match (`find_matches(q, m)`): no attempt twice either -/
+theorem machine_never_rescans_from_a_match (steps : Array (Step J)) (m : MNode J) (hd : m.data.WFK) (hc : PredsClean steps)
+    (hp : okShape steps.toList = true) (hs : PredsStamped steps.toList) :
+    ∃ k, (topKeys (hrun J.view steps (.nested m) k freshIter).2).Nodup := by
+  have hnd := (stream_keys steps.toList hp hs 0 (.imag m) hd).1
+  rcases full_run_x steps (.nested m) hc with ⟨_, k, stD, h1, _⟩ | ⟨e, _, k, stU, evs', h1, _, _⟩
+  · exact ⟨k, by rw [h1]; exact hnd⟩
+  · exact ⟨k, by rw [h1]; exact (topKeys_ttr_sublist _).nodup hnd⟩
+
 /-- every `__next__` performs at most `loopBudget` actions: `next` is defined by structural
 recursion on the budget (Lean accepts the definition only because it terminates), and when
 the budget is used up it signals `InfiniteLoopDetected` -/
